@@ -59,6 +59,9 @@ class Universe(object):
             for _ in range(rng.choice([1, 2])):
                 paths.append(long_stem(rng, b"p:", rng.choice(p.get("lens") or SPECIAL_LENS),
                                        rng.choice(["ascii", "bytes"])))
+            if rng.random() < p.get("huge", 0.12):
+                # a stem of dozens of blocks (2442 = 33 blocks exactly)
+                paths.append(long_stem(rng, b"p:", rng.choice([2442, 2443, 2960, 5000]), "ascii"))
         # twins: long stems sharing their whole first block (and more), differing only in a later byte
         for x in list(paths[4:]):
             if len(x) >= 78 and rng.random() < p.get("twins", 0.5):
@@ -433,6 +436,8 @@ class Driver(object):
                 continue
             if rng.random() < self.profile.get("text", 0.15):
                 op["text"] = True
+            if name in ("IndexBatchCrawl", "AddRule") and rng.random() < self.profile.get("allyield", 0.3):
+                op["ay"] = True      # the request drains its own generator with every iteration a yield point
             self.note(op)
             return op
         return {"op": "AddPage", "l": u.lrus[0], "cr": False}
